@@ -51,12 +51,12 @@
 (* the automaton), registry errors other than "blob body is empty" do not    *)
 (* occur, oci-layout always carries the supported version.                   *)
 (***************************************************************************)
-EXTENDS Naturals, Sequences, FiniteSets, TLC
+EXTENDS TarImportCat
 
 CONSTANTS DrainBug,    \* entry handler uploads from the tar reader it drained with io.ReadAll
           LinkCode,    \* link targets / link chains resolved the way the code does
           DupPathBug,  \* Docker layer handlers keyed by path: a repeated path keeps only the last index
-          Table        \* scenario id -> scenario record (catalogue x link pattern x selection), see TarImportMC
+          Ids          \* the scenario ids to explore (subset of DOMAIN AllTable, see TarImportCat)
 
 VARIABLES sid,     \* id of the scenario (constant during a behaviour)
           arch,    \* archive produced so far (sequence of entries)
@@ -68,7 +68,7 @@ VARIABLES sid,     \* id of the scenario (constant during a behaviour)
           tgt,     \* target store
           err      \* why it failed
 vars == <<sid, arch, rest, pos, pass, phase, imp, tgt, err>>
-sc == Table[sid]
+sc == AllTable[sid]                 \* the scenario record
 
 (* ------------------------------ paths ---------------------------------- *)
 Dir(p) == IF Len(p) <= 1 THEN <<>> ELSE SubSeq(p, 1, Len(p) - 1)     \* <<>> is "."
@@ -109,7 +109,7 @@ Empty == <<>>                                   \* the function with empty domai
 (* ---------------------------- the graph -------------------------------- *)
 Node(n) == sc.nodes[n]
 IsMan(n) == Node(n).k # "blob"
-BlobPath(n) == <<"blobs", "sha256", "#" \o n>>
+BlobPath(n) == BPath(n)
 LayoutName == <<"oci-layout">>
 IndexName == <<"index.json">>
 DockerName == <<"manifest.json">>
@@ -134,6 +134,8 @@ InSeq(x, q) == \E i \in 1..Len(q) : q[i] = x
 Range(q) == {q[i] : i \in 1..Len(q)}
 
 (* ------------------------- handler effects ----------------------------- *)
+\* an accepted write at the target: counted and labelled (see TgtInit)
+Write(t, label) == [t EXCEPT !.n = @ + 1, !.w = label]
 \* every effect maps [s (importer), t (target), ok, why] to the same shape
 R(s, t) == [s |-> s, t |-> t, ok |-> TRUE, why |-> ""]
 Fail(s, t, why) == [s |-> s, t |-> t, ok |-> FALSE, why |-> why]
@@ -166,7 +168,7 @@ ImportBlob(s, t, n, drained, c) ==
   IF n \in t.blobs THEN R(s, t)                                  \* BlobHead succeeds
   ELSE IF drained /\ DrainBug /\ Node(n).a # "empty" THEN Fail(s, t, "blob put from a drained reader")
   ELSE IF c # n THEN Fail(s, t, "blob digest mismatch")          \* the registry / layout verifies the digest
-  ELSE R(s, [t EXCEPT !.blobs = @ \cup {n}])
+  ELSE R(s, Write([t EXCEPT !.blobs = @ \cup {n}], "b:" \o n))
 
 \* root selection in imageImportOCIHandleManifest(push = false)
 RootSelect ==
@@ -200,9 +202,10 @@ HEntryEff(s, t, h, c) ==
 HBlobEff(s, t, h, c) == ImportBlob(s, t, h.n, FALSE, c)
 
 \* Docker fall-back: the digest is whatever the file holds (c), the descriptor goes into the manifest
-HDkConfigEff(s, t, c) == R([s EXCEPT !.dkm.cfg = c], [t EXCEPT !.blobs = @ \cup {c}])
+\* (BlobPut without a digest: uploaded even when the target holds the content already)
+HDkConfigEff(s, t, c) == R([s EXCEPT !.dkm.cfg = c], Write([t EXCEPT !.blobs = @ \cup {c}], "b:" \o c))
 HDkLayerEff(s, t, h, c) ==
-  R([s EXCEPT !.dkm.layers = [i \in DOMAIN @ |-> IF i \in h.i THEN c ELSE @[i]]], [t EXCEPT !.blobs = @ \cup {c}])
+  R([s EXCEPT !.dkm.layers = [i \in DOMAIN @ |-> IF i \in h.i THEN c ELSE @[i]]], Write([t EXCEPT !.blobs = @ \cup {c}], "b:" \o c))
 
 \* the handler registered under name x runs on the tar entry with content c
 Run(s, t, x, c) ==
@@ -237,9 +240,11 @@ FirstHandled(s, list) == IF list = <<>> THEN "none"
 ImpInit == [h |-> Empty, done |-> {}, links |-> Empty, fin |-> <<>>, added |-> FALSE,
             fl |-> FALSE, fi |-> FALSE, dk |-> FALSE, mans |-> {},
             dkm |-> [cfg |-> "", layers |-> <<>>]]
-TgtInit == [blobs |-> {}, mans |-> {}, tag |-> "", dk |-> [cfg |-> "", layers |-> <<>>]]
+\* n / w: number of accepted writes and the label of the last one (b:<blob> upload, m:<manifest by digest>,
+\* t:<manifest by tag>): the abstraction of the target's request log the generator turns into a prediction
+TgtInit == [blobs |-> {}, mans |-> {}, tag |-> "", dk |-> [cfg |-> "", layers |-> <<>>], n |-> 0, w |-> ""]
 
-Init == /\ sid \in DOMAIN Table
+Init == /\ sid \in Ids
         /\ arch = <<>> /\ rest = sc.entries
         /\ pos = 1 /\ pass = 0 /\ phase = "init"
         /\ imp = ImpInit /\ tgt = TgtInit /\ err = ""
@@ -274,20 +279,23 @@ ScanLink == \E e \in sc.entries :
   /\ UNCHANGED sid
 
 \* a regular file (or directory) entry whose first matching handler has type ht ("none": nothing to do)
-ScanFile(ht) == \E e \in sc.entries :
-  /\ Scanning /\ MoreEntries /\ NextEntry(e)
-  /\ e.kind \in {"file", "dir"}
-  /\ LET name == Clean(e.name) IN
-     IF LinkLoop(imp, name)
-     THEN ht = "none" /\ phase' = "failed" /\ err' = "symlink loop" /\ UNCHANGED <<imp, pos, pass, tgt>>
-     ELSE LET list == LinkList(imp, name) \o <<name>>
-              w == Walk(imp, tgt, list, FALSE, e.c)
-          IN /\ FirstHandled(imp, list) = ht
-             /\ imp' = w.s /\ tgt' = w.t
-             /\ CASE w.r = "fail" -> phase' = "failed" /\ err' = w.why /\ UNCHANGED <<pos, pass>>
-                  [] w.r = "ret" -> /\ phase' = (IF phase = "scan1" THEN "finish" ELSE "dkpush")
-                                    /\ UNCHANGED <<pos, pass, err>>
-                  [] OTHER -> pos' = pos + 1 /\ UNCHANGED <<pass, phase, err>>
+ScanFile(ht) ==
+  /\ Scanning /\ MoreEntries
+  /\ ht = "none" \/ \E x \in DOMAIN imp.h : imp.h[x].t = ht      \* (cheap pre-test, implied by FirstHandled = ht)
+  /\ \E e \in sc.entries :
+       /\ NextEntry(e)
+       /\ e.kind \in {"file", "dir"}
+       /\ LET name == Clean(e.name) IN
+          IF LinkLoop(imp, name)
+          THEN ht = "none" /\ phase' = "failed" /\ err' = "symlink loop" /\ UNCHANGED <<imp, pos, pass, tgt>>
+          ELSE LET list == LinkList(imp, name) \o <<name>>
+                   w == Walk(imp, tgt, list, FALSE, e.c)
+               IN /\ FirstHandled(imp, list) = ht
+                  /\ imp' = w.s /\ tgt' = w.t
+                  /\ CASE w.r = "fail" -> phase' = "failed" /\ err' = w.why /\ UNCHANGED <<pos, pass>>
+                       [] w.r = "ret" -> /\ phase' = (IF phase = "scan1" THEN "finish" ELSE "dkpush")
+                                         /\ UNCHANGED <<pos, pass, err>>
+                       [] OTHER -> pos' = pos + 1 /\ UNCHANGED <<pass, phase, err>>
   /\ UNCHANGED sid
 
 ScanNoHandler == ScanFile("none")
@@ -352,10 +360,13 @@ FinishStep(op) ==
      /\ f.op = op
      /\ imp' = [imp EXCEPT !.fin = SubSeq(@, 1, Len(@) - 1)]
      /\ IF op = "push"
-        THEN /\ tgt' = [tgt EXCEPT !.mans = @ \cup {f.n}]          \* ManifestHead ok -> skip, else ManifestPut
+        THEN /\ tgt' = IF f.n \in tgt.mans THEN tgt               \* ManifestHead ok -> skip, else ManifestPut
+                        ELSE Write([tgt EXCEPT !.mans = @ \cup {f.n}], "m:" \o f.n)
              /\ UNCHANGED <<phase, err>>
         ELSE IF f.n \in imp.mans
-             THEN tgt' = [tgt EXCEPT !.mans = @ \cup {f.n}, !.tag = f.n] /\ UNCHANGED <<phase, err>>
+             THEN \* ManifestPut(r, m): by tag, or by digest when the import reference carries a digest
+                  tgt' = Write([tgt EXCEPT !.mans = @ \cup {f.n}, !.tag = f.n],
+                               (IF sc.sel.by = "digest" /\ Len(sc.roots) > 1 THEN "m:" ELSE "t:") \o f.n) /\ UNCHANGED <<phase, err>>
              ELSE phase' = "failed" /\ err' = "could not find manifest to tag" /\ UNCHANGED tgt
   /\ UNCHANGED <<sid, arch, rest, pos, pass>>
 FinishPush == FinishStep("push")
@@ -367,17 +378,17 @@ FinishDone == /\ phase = "finish" /\ imp.fin = <<>>
 \* ImageImport after the second tarReadAll: manifest.New(WithOrig(trd.dockerManifest)) + ManifestPut
 DockerPush ==
   /\ phase = "dkpush"
-  /\ tgt' = [tgt EXCEPT !.dk = imp.dkm, !.tag = "dkman"]
+  /\ tgt' = Write([tgt EXCEPT !.dk = imp.dkm, !.tag = "dkman"], "t:dkman")
   /\ phase' = "done"
   /\ UNCHANGED <<sid, arch, rest, pos, pass, imp, err>>
 
 Terminated == phase \in {"done", "failed"} /\ UNCHANGED vars
 
-Next == \/ Begin \/ ScanLink
+Step == \/ Begin \/ ScanLink
         \/ ScanNoHandler \/ HLayout \/ HIndex \/ HDockerJSON \/ HEntry \/ HBlob \/ HDkConfig \/ HDkLayer
         \/ EndPassRescan \/ Fallback \/ NotFound
         \/ FinishPush \/ FinishTag \/ FinishDone \/ DockerPush
-        \/ Terminated
+Next == Step \/ Terminated
 Spec == Init /\ [][Next]_vars /\ WF_vars(Next)
 
 (* ----------------------------- invariants ------------------------------ *)
